@@ -240,58 +240,108 @@ def _joins(t):
 
 
 def r3_mapping(rep, src):
+    """parse_relations interpreted on symbolic strings.  The text of one field is  D1 ", " D2 " | " D3  (pieces free of
+    separators); __dep_RE.match is replaced by a stub whose groupdict() holds one symbolic atom per group (what the groups
+    capture is decided by R1/R2), the other regexes are applied structurally (split) or per scenario (restriction term).
+    The resulting structure must be the documented one: name / archqual from their groups, version = (operator, version),
+    architectures and build profiles with the polarity of their "!" prefix, in reading order."""
+    from .. import heap as H, symstr
+    from ..symstr import SStr
     fp = src.func(SITE + '.parse_relations')
-    inner = {n.name: n for n in fp.node.body if isinstance(n, ast.FunctionDef)}
-    for nm in ('parse_archs', 'parse_restrictions', 'parse_rel'):
-        if nm not in inner:
-            raise AnalysisError('%s: helper %s not found' % (fp.site, nm))
-    pr = inner['parse_rel']
-    d = [n for n in ast.walk(pr) if isinstance(n, ast.Dict)]
-    d = [x for x in d if any(norm(v) == "parts['name']" for v in x.values)] or d
-    first = d[0] if d else None
-    want = {'name': "parts['name']", 'archqual': "parts['archqual']"}
-    got = {ast.literal_eval(k): norm(v) for k, v in zip(first.keys, first.values)} if first else {}
-    if all(got.get(k) == v for k, v in want.items()) and set(got) >= {'name', 'archqual', 'version', 'arch', 'restrictions'}:
-        rep.ok('C13.R3', fp.site + '.parse_rel', 'name / archqual from their groups', 'ok', nontrivial=False)
-    else:
-        rep.fail('C13.R3', fp.site + '.parse_rel', 'name / archqual from their groups', 'the parsed structure does not take name/archqual from the groups of the same name',
-                 where=fp.where)
-    vers = [s for s in ast.walk(pr) if isinstance(s, ast.Assign) and norm(s.targets[0]) == "d['version']"]
-    if len(vers) == 1 and isinstance(vers[0].value, ast.Tuple) and [norm(e) for e in vers[0].value.elts] == ["parts['relop']", "parts['version']"]:
-        rep.ok('C13.R3', fp.site + '.parse_rel', 'version = (operator, version)', 'same order as written by " (%s %s)" % v')
-    else:
-        rep.fail('C13.R3', fp.site + '.parse_rel', 'version = (operator, version)', 'the version constraint is not rebuilt as (relop, version) from the two groups',
-                 where='%s:%d' % (fp.module.relpath, pr.lineno))
-    for key, grp, helper in (('arch', 'archs', 'parse_archs'), ('restrictions', 'restrictions', 'parse_restrictions')):
-        asg = [s for s in ast.walk(pr) if isinstance(s, ast.Assign) and norm(s.targets[0]) == "d['%s']" % key]
-        ok = len(asg) == 1 and norm(asg[0].value).replace('\n', '').replace(' ', '') == "%s(parts['%s'])" % (helper, grp) \
-            and isinstance(asg[0]._parent, ast.If) and norm(asg[0]._parent.test) == "parts['%s']" % grp
+    rep.saw_func(fp)
+    mod = src.mod('deb822')
+    word = r'[a-z0-9][a-z0-9+.-]*'
+    D = [symstr.atom('dep%d' % i, r'[^\s,|]+') for i in (1, 2, 3)]
+    A1, A2 = symstr.atom('arch1', word), symstr.atom('arch2', word)
+    P1, P2, P3 = (symstr.atom('profile%d' % i, word) for i in (1, 2, 3))
+    NAME, QUAL, OP, VER = (symstr.atom(n, r'[^\s]+') for n in ('name', 'archqual', 'relop', 'version'))
+    archs_text = A1 + ' ' + SStr(['!']) + A2
+    restr_text = SStr(['<']) + P1 + ' !' + P2 + '> <!' + P3 + '>'
+    scen = {D[0].key(): {'name': NAME, 'archqual': QUAL, 'relop': OP, 'version': VER, 'archs': archs_text, 'restrictions': restr_text},
+            D[1].key(): {'name': NAME, 'archqual': None, 'relop': None, 'version': None, 'archs': None, 'restrictions': None},
+            D[2].key(): None}
+    warned = []
+
+    def dep_match(it, args, kw):
+        s_ = symstr.lift(args[0])
+        if s_.key() not in scen:
+            raise AnalysisError('parse_relations applies __dep_RE to %r, not to a single dependency' % (s_,))
+        g = scen[s_.key()]
+        if g is None:
+            return None
+        d = it.h.new_dict()
+        for k, v in g.items():
+            it.h.objs[d.name]['entries'].append((k, v))
+        return it.h.alloc('Match', {'groups': d})
+
+    def restriction_match(it, args, kw):
+        s_ = symstr.lift(args[0])
+        for p_, neg in ((P1, False), (P2, True), (P3, True)):
+            if s_.same((SStr(['!']) + p_) if neg else p_):
+                d = it.h.new_dict()
+                it.h.objs[d.name]['entries'] += [('enabled', '!' if neg else None), ('profile', p_)]
+                return it.h.alloc('Match', {'groups': d})
+        raise AnalysisError('__restriction_RE is applied to %r, which is not a single restriction term of the scenario' % (s_,))
+    heap = H.Heap(mod, hooks={'regex:__dep_RE.match': dep_match, 'regex:__restriction_RE.match': restriction_match,
+                              '.groupdict': lambda it, args, kw: it.h.objs[args[0].name]['groups'],
+                              '.group': lambda it, args, kw: it.h.dict_get(it.h.objs[args[0].name]['groups'], args[1]),
+                              'warnings.warn': lambda it, args, kw: warned.append(args[0])})
+    heap.symbolic_strings = True
+    it = H.Interp(heap)
+    raw = D[0] + ', ' + D[1] + ' | ' + D[2]
+    try:
+        res = it.call(H.Closure(fp.node, {}, None, fp.cls), [('class', 'PkgRelation'), raw])
+    except H.Raised as x:
+        rep.fail('C13.R3', fp.site, 'parse_relations on "D1, D2 | D3"', 'raises %s (line %d)' % (x.exc, x.lineno), where=fp.where)
+        return
+
+    def plain(v):
+        """heap value -> python structure with symbolic strings as their repr"""
+        if isinstance(v, H.Ref):
+            o = heap.objs[v.name]
+            if o['__class__'] == 'dict':
+                return {plain(k): plain(x) for k, x in o['entries']}
+            if o['__class__'] == 'list':
+                return [plain(x) for x in o['items']]
+            return v.name
+        if isinstance(v, (list,)):
+            return [plain(x) for x in v]
+        if isinstance(v, tuple) and v and v[0] == 'record':
+            return (v[1],) + tuple(plain(x) for x in v[3])
+        if isinstance(v, tuple):
+            return tuple(plain(x) for x in v)
+        if isinstance(v, SStr):
+            c = v.concrete()
+            return c if c is not None else repr(v)
+        return v
+    got = plain(res)
+    r = repr
+    full = {'name': r(NAME), 'archqual': r(QUAL), 'version': (r(OP), r(VER)),
+            'arch': [('ArchRestriction', True, r(A1)), ('ArchRestriction', False, r(A2))],
+            'restrictions': [[('BuildRestriction', True, r(P1)), ('BuildRestriction', False, r(P2))], [('BuildRestriction', False, r(P3))]]}
+    bare = {'name': r(NAME), 'archqual': None, 'version': None, 'arch': None, 'restrictions': None}
+    rawd = {'name': r(D[2]), 'archqual': None, 'version': None, 'arch': None, 'restrictions': None}
+    want = [[full], [bare, rawd]]
+    checks = [('AND/OR structure: "," separates alternatives groups, "|" alternatives', lambda g: isinstance(g, list) and [len(x) for x in g] == [1, 2]),
+              ('name / archqual from their groups', lambda g: (g[0][0]['name'], g[0][0]['archqual'], g[1][0]['name'], g[1][0]['archqual']) == (r(NAME), r(QUAL), r(NAME), None)),
+              ('version = (operator, version)', lambda g: g[0][0]['version'] == full['version'] and g[1][0]['version'] is None),
+              ('architectures: "!" prefix ⟺ disabled, per item, in order', lambda g: g[0][0]['arch'] == full['arch'] and g[1][0]['arch'] is None),
+              ('build profiles: groups and terms in reading order with their polarity', lambda g: g[0][0]['restrictions'] == full['restrictions'] and g[1][0]['restrictions'] is None),
+              ('an unparsable alternative is returned raw with a warning', lambda g: g[1][1] == rawd and len(warned) == 1)]
+    for what, pred in checks:
+        try:
+            ok = pred(got)
+        except (KeyError, IndexError, TypeError):
+            ok = False
         if ok:
-            rep.ok('C13.R3', fp.site + '.parse_rel', '%s parsed only when written' % key, "if parts['%s']: %s(...)" % (grp, helper), nontrivial=False)
+            rep.ok('C13.R3', fp.site, what, 'as specified')
         else:
-            rep.fail('C13.R3', fp.site + '.parse_rel', '%s parsed only when written' % key, 'the %s list is not built from group %s exactly when it participated' % (key, grp),
-                     where='%s:%d' % (fp.module.relpath, pr.lineno))
-    # polarity agreement for architectures: writer '' if enabled else '!' ; reader not (first char == '!'), name without it
-    pa = inner['parse_archs']
-    t = norm(pa)
-    reader_ok = "disabled = arch[0] == '!'" in t and 'arch = arch[1:]' in t and 'cls.ArchRestriction(not disabled, arch)' in t \
-        and 'cls.__blank_sep_RE.split(raw.strip())' in t
-    f = src.func(SITE + '.str')
-    wt = norm(f.node)
-    writer_ok = "'' if arch_spec.enabled else '!'" in wt and "'' if term.enabled else '!'" in wt
-    if reader_ok and writer_ok:
-        rep.ok('C13.R3', fp.site + '.parse_archs', 'polarity of architectures and profiles', "'!' prefix ⟺ not enabled on both sides; per-item")
-    else:
-        rep.fail('C13.R3', fp.site + '.parse_archs', 'polarity of architectures and profiles',
-                 'the "!" prefix is not written for exactly the disabled items and read back per item (reader ok: %s, writer ok: %s)' % (reader_ok, writer_ok),
-                 where='%s:%d' % (fp.module.relpath, pa.lineno))
-    prs = inner['parse_restrictions']
-    t = norm(prs)
-    if "parts['enabled'] != '!'" in t and "parts['profile']" in t and 'restrictions.append(group)' in t and 'group.append(' in t:
-        rep.ok('C13.R3', fp.site + '.parse_restrictions', 'restriction terms rebuilt in order', 'BuildRestriction(enabled != "!", profile) appended per term/group', nontrivial=False)
-    else:
-        rep.fail('C13.R3', fp.site + '.parse_restrictions', 'restriction terms rebuilt in order', 'terms/groups are not appended in reading order with the polarity from the "!" group',
-                 where='%s:%d' % (fp.module.relpath, prs.lineno))
+            rep.fail('C13.R3', fp.site, what, 'parse_relations("D1, D2 | D3") builds %s; specified: %s' % (str(got)[:300], str(want)[:300]), where=fp.where)
+    from . import common
+    common.check_no_hidden_state(rep, src, 'C13.R3', [SITE + '.parse_relations', SITE + '.str'],
+                                 'a parse result handed out from (or shared with) a memo is the same object for equal texts: when a caller edits one '
+                                 'result in place, a later format→parse of an equal relation returns a different structure')
+    # the writer side of the polarity: decided by the template rules R1/R2 (the "!" literal is part of the extracted template)
 
 
 def check(src, rep, tier):
